@@ -1,10 +1,15 @@
 #!/bin/sh
-# usage: tools/try_patch.sh <patch.diff> <ID> [<ID>...]   -- applies a seeded change to /repo, runs the quick checks, reverts
+# usage: tools/try_patch.sh <patch.diff> <ID> [<ID>...]   -- applies a seeded change to /repo, runs the quick checks, reverts.
+# The evidence files of the checks are saved and restored: committed evidence must come from the unchanged tree.
 P="$1"; shift
 git -C /repo apply "$P" || { echo "patch does not apply"; exit 3; }
+SAVE=$(mktemp -d /root/scratch/evsave.XXXXXX)
 for id in "$@"; do
+  [ -f /verif/evidence/$id.json ] && cp /verif/evidence/$id.json $SAVE/$id.json
   echo "=== $id on $(basename $(dirname $P))/$(basename $P)"
   (cd /verif && ./check $id --tier ${TIER:-quick} 2>&1 | grep -E "VIOLATION|KNOWN-FINDING|INCONCLUSIVE|obligations" | cut -c1-300)
+  [ -f $SAVE/$id.json ] && cp $SAVE/$id.json /verif/evidence/$id.json
 done
+rm -rf $SAVE
 git -C /repo checkout -- .
 git -C /repo status --short
